@@ -35,8 +35,9 @@ func (ro *ReadOptions) Finalize() {
 	if ro.StartNanos == 0 && ro.Start > 0 {
 		ro.StartNanos = uint64(ro.Start)
 	}
-	if ro.EndNanos == 0 && ro.End > 0 {
+	if (ro.EndNanos == 0 || ro.endUnbounded) && ro.End > 0 {
 		ro.EndNanos = uint64(ro.End)
+		ro.endUnbounded = false
 	}
 }
 
